@@ -122,6 +122,7 @@ class Rec:
         self.last = None        # (hook, pid, kind, td, hq-relevant response)
         self.parse_exc = None
         self.pname = None
+        self.events = []        # hooks run during the current segment, in order
 
 
 def _wrap(h, rec, flags):
@@ -156,18 +157,21 @@ def _wrap(h, rec, flags):
                     r = None if r is None else bytes(r)
                     tok = 'raise:%s:%s' % (hx(r), bl(q))
                     rec.last = (name, pid, 'raise', None, r)
+                    rec.events.append(rec.last)
                     (rec.cds.append(tok) if name == 'cd' else setattr(rec, 'oc', tok))
                     raise
                 except Exception:
                     q = _buf(h)[n0:]
                     tok = 'crash:%s' % bl(q)
                     rec.last = (name, pid, 'crash', None, None)
+                    rec.events.append(rec.last)
                     (rec.cds.append(tok) if name == 'cd' else setattr(rec, 'oc', tok))
                     raise
                 q = _buf(h)[n0:]
                 td = 1 if (isinstance(out, bool) and out and name == 'oc') else 0
                 tok = 'ret:%d:%s' % (td, bl(q))
                 rec.last = (name, pid, 'ret', td, None)
+                rec.events.append(rec.last)
                 (rec.cds.append(tok) if name == 'cd' else setattr(rec, 'oc', tok))
                 return out
             return run
@@ -247,6 +251,7 @@ def _drive(case):
                 continue
             n0 = len(h.work.buffer)
             rec.last = None
+            rec.events = []
             rec.parse_exc = None
             hq = []
             cs.script_recv(('data', s))
@@ -257,9 +262,12 @@ def _drive(case):
             added = buf[n0:]
             if rec.last is not None:
                 hook, pid, kind, ptd, resp = rec.last
+                first_phase = rec.events[0][0] == 'oc'
                 if kind == 'ret':
-                    o = ('served:%d:%d' % (pid, ptd)) if hook == 'oc' else 'data:%d' % pid
-                    cls = 'served' if hook == 'oc' else 'data'
+                    # on_request_complete returned (and, since 84c574d, the leftover of the segment went
+                    # through on_client_data as part of the same call)
+                    o = ('served:%d:%d' % (pid, rec.events[0][3])) if first_phase else 'data:%d' % pid
+                    cls = 'served' if first_phase else 'data'
                 elif kind == 'raise':
                     hq = [resp] if resp else []
                     o = 'reject:plugin:%d' % pid
@@ -517,6 +525,13 @@ def _oracle(case):
                 return 'ok-response-body-differs-from-content'
         return None
     obs, rec, infos = drive(case)
+    if len(case['segs']) > 1:
+        # the decision on the first request must not depend on how the bytes were cut
+        whole = dict(case, segs=[''.join(case['segs'])])
+        w_obs = drive(whole)[0]
+        a, b = _terminal(obs), _terminal(w_obs)
+        if not _same_story(a, b):
+            return 'outcome-depends-on-segmentation:%s-vs-%s' % ('+'.join(a) or 'wait', '+'.join(b) or 'wait')
     decided = False
     for info in infos:
         o = info['o']
@@ -566,6 +581,28 @@ def _oracle(case):
             if why:
                 return 'served-response-not-accepted-by-h11:' + why
     return None
+
+
+def _terminal(obs):
+    """the decisions of a run in order: outcomes other than wait / unread / data, a reject by its
+    reason group"""
+    out = []
+    for line in obs:
+        o = line.split(' ')[0][2:]
+        parts = o.split(':')
+        if parts[0] in ('wait', 'unread', 'data'):
+            continue
+        out.append(':'.join(parts[:2]) if parts[0] == 'reject' else parts[0])
+    return out
+
+
+def _same_story(cut, whole):
+    """bytes that follow a served first request in the same segment reach on_client_data within the
+    same call, so its protocol exception / crash replaces the `served` of the cut run"""
+    if cut == whole:
+        return True
+    return (len(cut) == 2 and cut[0] == 'served' and whole == cut[1:]
+            and whole[0] in ('reject:plugin', 'escaped'))
 
 
 def oracle(case):
